@@ -262,7 +262,7 @@ class Unit:
                     # (the obligation names stay the same, so a failure is still "an obligation that held and now fails")
                     self.relaxed.append('%s: loop #%d header is %r, contract written for %r' % (key, lc.ordinal, hdr, lc.fingerprint))
                 sent = ''
-                if self.sentinel and any(sec.startswith('invariant') for sec, _ in lc.clauses):
+                if self.sentinel and any(sec.startswith('invariant') for sec, _ in lc.clauses) and not any('loop_isolation(false)' in a for a in c.attrs):
                     tag = '%s#loop%d' % (key, lc.ordinal)
                     self.sentinels.append(tag)
                     sent = '\n\t\tassert(false); /*@S:%s*/' % tag
